@@ -91,21 +91,67 @@ def build_lines(prog):
             t += len(c)
         else:
             t += cap["hold"]
+    return apply_cuts(lines, prog.get("cuts"))
+
+
+def apply_cuts(lines, cuts):
+    """Spread a line over two frame-contiguous lines (the same word stream, another layout of the
+    file): cuts = [[line index, word index], ...], both taken modulo what exists."""
+    lines = list(lines)
+    for li, pos in cuts or []:
+        i = li % len(lines)
+        t, w = lines[i][0], lines[i][1]
+        if len(w) >= 2:
+            k = 1 + pos % (len(w) - 1)
+            lines[i:i + 1] = [(t, w[:k]) + tuple(lines[i][2:]), (t + k, w[k:]) + tuple(lines[i][2:])]
     return lines
 
 
+def fmt_line(tc, words, spacing=None):
+    """One SCC line: timecode, separator, code words, tail - in the lexical variant `spacing`."""
+    sp = spacing or {}
+    gaps = sp.get("gaps") or [1]
+    body = ""
+    for i, w in enumerate(words):
+        if i:
+            body += " " * gaps[(i - 1) % len(gaps)]
+        body += w
+    return tc + sp.get("tc", "\t") + body + sp.get("tail", "")
+
+
+def _line_drop(prog, line):
+    return line[2] if len(line) > 2 else prog["drop"]
+
+
 def to_scc(prog, lines=None, start=30 * 3600):
+    """prog["spacing"] (optional) = {"tc": separator after the timecode, "gaps": [n blanks
+    between code words, cycled], "tail": what follows the last word of a line}."""
     lines = lines if lines is not None else build_lines(prog)
     out = [HEADER, ""]
-    for frames, words in lines:
-        out.append(R.timecode(start + frames, prog["drop"]) + "\t" + " ".join(words))
+    for line in lines:
+        out.append(fmt_line(R.timecode(start + line[0], _line_drop(prog, line)), line[1], prog.get("spacing")))
         out.append("")
     return "\n".join(out)
 
 
 def reference(prog, lines=None, start=30 * 3600):
     lines = lines if lines is not None else build_lines(prog)
-    return R.decode_popon([(start + f, prog["drop"], w) for f, w in lines])
+    return R.decode_popon([(start + l[0], _line_drop(prog, l), l[1]) for l in lines])
+
+
+def spacing_strategy():
+    """Lexical variants of a line that the reader is observed to accept: blanks instead of the
+    tab after the timecode, more than one blank between code words, blanks / a tab after the
+    last word."""
+    return st.one_of(st.none(), st.none(), st.fixed_dictionaries({
+        "tc": st.sampled_from(["\t", "\t", " ", "\t ", "  "]),
+        "gaps": st.lists(st.sampled_from([1, 1, 1, 2, 3]), min_size=1, max_size=7),
+        "tail": st.sampled_from(["", "", " ", "\t", " \t", "  "])}))
+
+
+def cuts_strategy():
+    return st.one_of(st.just([]), st.just([]),
+                     st.lists(st.tuples(st.integers(0, 9), st.integers(0, 60)).map(list), min_size=1, max_size=3))
 
 
 # ------------------------------------------------------------------ strategies
@@ -238,7 +284,7 @@ def program_strategy(max_captions=4):
             if not (caps[k - 2]["clear"] or caps[k - 1]["edm"] == "inline"):
                 caps[k]["enm"] = True
         return {"drop": draw(st.booleans()), "double": draw(st.sampled_from(["none", "all", "random"])),
-                "captions": caps}
+                "captions": caps, "cuts": draw(cuts_strategy()), "spacing": draw(spacing_strategy())}
     return build()
 
 
